@@ -305,6 +305,18 @@ func (r *Run) Finish(level string) int {
 		"queries": sv.Queries, "sat": sv.Sat, "unsat": sv.Unsat, "unknown": sv.Unknown,
 		"errors": sv.Errors, "seconds": round3(sv.Seconds),
 	}
+	xmode := os.Getenv("VERIF_XCHECK")
+	if xmode == "" {
+		xmode = "final"
+	}
+	cv["solver_cross_check"] = map[string]interface{}{
+		"cmd": "z3-new -in (5.1.0), standalone script of path condition + assertion per query", "mode": xmode,
+		"queries": sv.XQueries, "agree": sv.XAgree, "disagree": sv.XDisagree, "unknown_second_solver": sv.XUnknown,
+		"seconds": round3(sv.XSeconds),
+	}
+	if sv.XDisagree > 0 {
+		fmt.Printf("note: %d verdicts of z3 4.8.12 were contradicted by z3 5.1.0; those paths are inconclusive\n", sv.XDisagree)
+	}
 	cv["spurious_candidates"] = r.spurious
 	cv["model_gaps"] = r.modelGaps
 	if level == "model_checking" {
